@@ -339,3 +339,5 @@ PROPS["C14"]["floors"]["any"]["probes_with_analysis"] = 2000
 PROPS["C13"]["quick"].append({"variant": "default", "cases": 30000, "params": {"hist": 1}, "timeout": 900})
 PROPS["C13"]["thorough"].append({"variant": "default", "cases": 1500000, "params": {"hist": 1}, "timeout": 3400})
 PROPS["C13"]["floors"]["any"].update({"declarative_histories": 10000, "family_congruence_chain": 1000})
+
+PROPS["C07"]["floors"]["any"]["queries_with_uninserted_term"] = 500
